@@ -1858,6 +1858,11 @@ class Kernel:
         env_body = dict(env)
         loopvars = []
         if is_for:
+            clash = [n for n in self.for_targets(s) if self.aliases.get(n, n) in env]
+            if clash:
+                # Python keeps a loop variable's last value after the loop; a target that re-uses an existing variable would have to be carried
+                # out of the loop — refuse rather than give it block scope silently
+                raise Unsupported(f"loop variable(s) {clash} re-use an existing variable")
             src, ts, pat = self.for_source(s, env, binds, env_body)
         names = [self.aliases.get(n, n) for n in assigned(list(s.body))]
         state = []
